@@ -2,6 +2,7 @@ import Nstd.Variant.LemmasSpec
 import Nstd.Variant.LemmasDec
 import Nstd.Variant.Ieee
 import Nstd.Variant.DeepRun
+import Nstd.Variant.DeepFuel
 /-
   Property C07 — Variant keeps the last assigned value with independent lazy copies.
 
@@ -402,6 +403,21 @@ theorem deep_refines (ds : DblSem) (ops : List Op) (hsup : ∀ op ∈ ops, Deep.
         Deep.readCell f s.h (s.vars v) = specRun ds Store.init ops v := by
   obtain ⟨s, r, g⟩ := Deep.drun_refines ds ops Deep.dinit Store.init Deep.dgood_init hsup
   exact ⟨s, r, g, fun v hv f hf => Deep.read_eq g v hv f hf⟩
+
+/-- The fuel the driver uses, `next + 1`, always suffices: in every state related to a store, reading a
+    variable back from the heap with that fuel gives the store's value.  (The nesting depth of a value
+    is at most the number of live blocks: the ghost value of a block is strictly deeper than those of its
+    elements, so the blocks along a nesting chain are pairwise different — pigeonhole, DeepFuel.lean.) -/
+theorem deep_read_fuel {s : Deep.DState} {σ : Store} (hg : Deep.DGood s σ) (v : Nat) (hv : v < nvars) :
+    s.read v = σ v := Deep.read_exact hg v hv
+
+/-- The loop of the compiled driver itself (`Deep.ddrive`: a line is executed iff the specification
+    accepts it on the values *read back from the heap* with fuel `next + 1`) never prints FAULT and ends,
+    for every history, in a state whose variables read exactly as the specification store. -/
+theorem deep_driver_refines (ds : DblSem) (ops : List Op) (hsup : ∀ op ∈ ops, Deep.OpSup op) :
+    ∃ s, Deep.ddrive ds Deep.dinit ops = some s ∧ ∀ v, v < nvars → s.read v = specRun ds Store.init ops v := by
+  obtain ⟨s, r, g⟩ := Deep.ddrive_refines ds ops Deep.dinit Store.init Deep.dgood_init hsup
+  exact ⟨s, r, fun v hv => Deep.read_exact g v hv⟩
 
 /-- `clear()` / the destructor on any pending handle of any state satisfying the invariant:
     terminates (fuel above the number of live blocks), keeps the invariant with that handle
